@@ -265,6 +265,8 @@ def _static_bases():
     add("sqlite3.Row", sqlite3.Row)
     add("enum.Enum", enum.Enum)
     add("enum.IntEnum", enum.IntEnum)
+    add("enum.EnumType", enum.EnumType)          # metaclasses: `origin` keeps them on typing.Callable
+    add("abc.ABCMeta", __import__("abc").ABCMeta)
     add("numbers.Number", numbers.Number)
     add("numbers.Integral", numbers.Integral)
     add("numbers.Real", numbers.Real)
@@ -322,6 +324,7 @@ def targets(inspection=None):
     if inspection is not None:
         t += [("mappingTypes", tuple(inspection._MAPPING_TYPES)), ("builtinSub", tuple(inspection.BUILTIN_TYPES_TUPLE)),
               ("stdlibSub", tuple(inspection.STDLIB_TYPES_TUPLE))]
+        t += [("typeSub", type)]
     return t
 
 
@@ -417,7 +420,8 @@ def facts(inspection):
     special = {}
     for key, obj in (("tupleId", tuple), ("unionId", typing.Union), ("unionTypeId", types.UnionType),
                      ("optionalId", typing.Optional), ("literalId", typing.Literal), ("finalId", typing.Final),
-                     ("classVarId", typing.ClassVar), ("callableId", typing.Callable), ("anyId", typing.Any),
+                     ("classVarId", typing.ClassVar), ("callableId", typing.Callable),
+                     ("abcCallableId", collections.abc.Callable), ("anyId", typing.Any),
                      ("noneId", None), ("noneTypeId", type(None)), ("ellipsisId", Ellipsis)):
         special[key] = idx[id(obj)]
     return {"rows": rows, "gtm": gtm, "special": special, "targets": [n for n, _ in tg]}
